@@ -53,6 +53,9 @@ def auth_shapes():
         ('cancel-login', [b'AUTH LOGIN', b64(b'user'), b'*'], None), ('empty-response', [b'AUTH PLAIN', b''], None),
         ('garbage-arg', [b'AUTH PLAIN=x'], None), ('wrong-format', [b'AUTH PLAIN ' + b64(b'no-nul-here')], None),
         ('lowercase', [b'auth plain ' + b64(plain_blob(CREDS[0]))], CREDS[0]),
+        # valid base64 of bytes that are not UTF-8: malformed credentials, an error reply, the session goes on
+        ('plain-nonutf8', [b'AUTH PLAIN ' + b64(b'\x00us\xff\x00pw')], None), ('plain-challenge-nonutf8', [b'AUTH PLAIN', b64(b'\x00\xfe\xff\x00pw')], None),
+        ('login-nonutf8-user', [b'AUTH LOGIN', b64(b'\xff\xfe'), b64(b'pw')], None), ('login-nonutf8-pass', [b'AUTH LOGIN ' + b64(b'user'), b64(b'p\xc3')], None),
     ]
     return out
 
